@@ -157,6 +157,15 @@ Proof.
     + destruct (c_store c (r_topic r)); inv_some; (eapply inv_att_same; [|exact I]); same_att_tac.
 Qed.
 
+Lemma att_hubunregfail : forall c c', inv_att c -> exec HubUnregFail c = Some c' -> inv_att c'.
+Proof.
+  intros c c' I Hs. simpl in Hs.
+  destruct (c_hunreg c) as [|[t|r] rest]; try discriminate; simpl in Hs.
+  destruct (c_table c (r_topic r)) as [i|].
+  - destruct (is_init (i_phase (c_inst c i))); [discriminate|]. inv_some; (eapply inv_att_same; [|exact I]); same_att_tac.
+  - destruct (c_store c (r_topic r)); [|discriminate]. inv_some; (eapply inv_att_same; [|exact I]); same_att_tac.
+Qed.
+
 Lemma att_discend : forall c s c', inv_att c -> exec (DiscEnd s) c = Some c' -> inv_att c'.
 Proof.
   intros c s c' I Hs. simpl in Hs.
@@ -623,6 +632,7 @@ Proof.
   - eapply att_sessdetach; eauto.
   - eapply att_discbegin; eauto.
   - eapply att_discend; eauto.
+  - eapply att_hubunregfail; eauto.
 Qed.
 
 Lemma inv_att_reach : forall st ow us c, reach st ow us c -> inv_att c.
